@@ -77,11 +77,50 @@ def runScenario (mode : Mode) (fuel : Nat) (ops : List Sexp) : Sexp :=
     (e', outs ++ [o])) (({} : Engine), ([] : List Sexp))
   .list (.sym "results" :: outs)
 
+/-- `toPython` result as an S-expression. -/
+partial def sexpOfPyVal : PyVal → Sexp
+  | .none => .sym "None"
+  | .str s => .str s
+  | .int i => .list [.sym "int", .sym (toString i)]
+  | .list xs => .list (.sym "list" :: xs.map sexpOfPyVal)
+  | .tup n args => .list (.sym "tuple" :: .str n :: args.map sexpOfPyVal)
+  | .err => .sym "error"
+
+/-- Nested `for _ in unify(a1,b1): for _ in unify(a2,b2): …`; at the innermost yield the
+    observed terms are resolved (canonically renamed) and converted with `toPython`. -/
+def unifySeq (fuel : Nat) (pairs : List (Term × Term)) (watch : List Term) (sched : Sched) : Sexp :=
+  let g : Gen := pairs.foldr (fun (a, b) g => fun k w => unify fuel a b (fun w' => g k w') w) Gen.succeed
+  let w0 : World := { next := 1000, acc := [[]] }
+  let (w1, r) := match sched with
+    | .stop 0 => (w0, some Sig.stop)
+    | _ => g (fun w =>
+        match watch.mapM (resolve w.b fuel) with
+        | none => (w, some .oof)
+        | some vs =>
+          let ans := Term.fn "$ans" (canonVars vs).1
+          let py := Term.fn "$py" (vs.map fun v => Term.atom (Sexp.toString (sexpOfPyVal (toPython fuel v))))
+          let w := { w with acc := [(w.acc.headD []) ++ [ans, py]] }
+          match sched with
+          | .all => (w, none)
+          | .stop _ => (w, some .stop)
+          | .raise _ => (w, some (.exn "ConsumerError"))) w0
+  let outs := (w1.acc.headD []).map fun a => match a with
+    | .fn "$ans" args => Sexp.list (.sym "ans" :: args.map sexpOfTerm)
+    | .fn "$py" args => Sexp.list (.sym "py" :: args.map fun t => match t with | .atom s => (Sexp.parse s).getD (.sym "?") | _ => .sym "?")
+    | t => sexpOfTerm t
+  .list ([.sym "u", .list outs, sexpOfSig r, .sym (toString w1.boundCount)] ++ (if w1.cyc then [.sym "cyclic"] else []))
+
 def handle : Sexp → Sexp
   | .list (.sym "scenario" :: mode :: fuel :: ops) =>
       match modeOfSexp mode, natOfSexp fuel with
       | some m, some f => runScenario m f ops
       | _, _ => .sym "bad-op"
+  | .list [.sym "unify", fuel, .list pairs, .list watch, sched] =>
+      match natOfSexp fuel, pairs.mapM (fun p => match p with
+                | .list [a, b] => do pure ((← termOfSexp a), (← termOfSexp b))
+                | _ => none), watch.mapM termOfSexp, schedOfSexp sched with
+      | some f, some ps, some ws, some sc => unifySeq f ps ws sc
+      | _, _, _, _ => .sym "bad-op"
   | .list [.sym "echo", x] => x
   | _ => .sym "bad-op"
 
